@@ -400,6 +400,7 @@ class IdentSim(object):
 
     def op_entropy_repeat(self, ev, i, rec):
         self.world.ids.repeat_next = ev.get("which", 0)
+        self.world.ids.repeat_times = int(ev.get("times", 1))
         self.count("fault.entropy-repeat")
 
     def op_codec(self, ev, i, rec):
@@ -825,7 +826,8 @@ def gen_c18(seed, tier):
         elif k == "reopen":
             evs.append({"k": k})
         elif k == "entropy_repeat":
-            evs.append({"k": k, "which": rf.randrange(64)})
+            # one repeated draw, or a pool that stays stuck for several consecutive draws
+            evs.append({"k": k, "which": rf.randrange(64), "times": rf.pick([1, 1, 2, 3, 5, 8])})
         elif k == "codec":
             ts = []
             for _ in range(r.randrange(2, 12)):
